@@ -13,6 +13,7 @@ import CookModel.Driver.Display
 import CookModel.Driver.Report
 import CookModel.Driver.ScaleM
 import CookModel.Driver.SerdeEq
+import CookModel.Driver.GroupMore
 /- Registry of line-protocol handlers. One line per area. -/
 namespace Cook.Driver
 def handlers : List (List String → Option String) := [
@@ -30,6 +31,7 @@ def handlers : List (List String → Option String) := [
   handleDisplay,
   handleReport,
   handleScaleM,
-  handleSerdeEq
+  handleSerdeEq,
+  handleGroupMore
 ]
 end Cook.Driver
